@@ -90,8 +90,49 @@ func runC19(p *core.Prog, r *core.Report) {
 	}
 	r3.Check(filled, core.FuncName(ev)+"#evacuated-set", p.Pos(ev.Pos()), "the set is keyed by every requested shard id", "the evacuated set is no longer filled from every requested shard id")
 
+	evacuationAccountsEveryObject(p, r, "C19.R2")
+	// ---------------- R4 precondition
+	r4 := r.Rule("C19.R4", "evacuation proceeds only if every named shard is read-only", 1)
+	ro := core.G("shard-read-only", core.IsTrue, "(pkg/local_object_storage/shard/mode.Mode).ReadOnly")
+	gfr := core.Flow(ev, []core.Guard{ro})
+	// the loop that checks modes: its back edges need the fact
+	roSites := core.CallSites([]*ssa.Function{ev}, ro.Match)
+	if len(roSites) == 0 {
+		r4.Bad(core.FuncName(ev)+"#read-only-precondition", p.Pos(ev.Pos()), "Evacuate no longer checks that the shards are read-only")
+	}
+	for _, s := range roSites {
+		var h2 *ssa.BasicBlock
+		for _, h := range ev.Blocks {
+			for _, pr := range h.Preds {
+				if h.Dominates(pr) && h.Dominates(s.Call.Block()) && reaches(s.Call.Block(), h) {
+					h2 = h
+				}
+			}
+		}
+		if h2 == nil {
+			r4.Bad(core.FuncName(ev)+"#read-only-precondition", p.InstrPos(s.Call), "the read-only check is not inside a loop over the requested shards")
+			continue
+		}
+		good := true
+		for _, pr := range h2.Preds {
+			if h2.Dominates(pr) && !gfr.Passed(gfr.OnEdge(pr, h2), 0) {
+				good = false
+			}
+		}
+		r4.Check(good, core.FuncName(ev)+"#read-only-precondition", p.InstrPos(s.Call), "the check loop advances only past read-only shards", "the precondition loop moves on past a shard that is not read-only")
+	}
+}
+
+// evacuationAccountsEveryObject: shared by C19.R2 and C08.R4.
+func evacuationAccountsEveryObject(p *core.Prog, r *core.Report, ruleID string) {
+	ev := p.Func(engT + "Evacuate")
+	if ev == nil {
+		r.Fatalf("%s: Evacuate not found", ruleID)
+		return
+	}
+	const shardT2 = "(*pkg/local_object_storage/shard.Shard)."
 	// ---------------- R2 accounted outcomes
-	r2 := r.Rule("C19.R2", "every listed object leaves the per-object loop through an accounted outcome; nil only after all drained shards", 3)
+	r2 := r.Rule(ruleID, "every listed object — whatever its type: a LOCK must follow the object it protects — leaves the per-object loop through an accounted outcome; nil only after all drained shards", 3)
 	getS := func(s core.Site) bool { return s.Name == shardT2+"Get" }
 	putS := func(s core.Site) bool { return s.Name == engT+"putToShard" }
 	fh := func(s core.Site) bool {
@@ -161,35 +202,5 @@ func runC19(p *core.Prog, r *core.Report) {
 		if c, isC := v.(*ssa.Const); isC && c.IsNil() {
 			r2.Check(outer != nil && outer.Dominates(b) && !reaches(b, outer), core.FuncName(ev)+"#return-nil", p.InstrPos(ret), "success only after the loop over all drained shards", "Evacuate reports success from inside the evacuation loops")
 		}
-	}
-	// ---------------- R4 precondition
-	r4 := r.Rule("C19.R4", "evacuation proceeds only if every named shard is read-only", 1)
-	ro := core.G("shard-read-only", core.IsTrue, "(pkg/local_object_storage/shard/mode.Mode).ReadOnly")
-	gfr := core.Flow(ev, []core.Guard{ro})
-	// the loop that checks modes: its back edges need the fact
-	roSites := core.CallSites([]*ssa.Function{ev}, ro.Match)
-	if len(roSites) == 0 {
-		r4.Bad(core.FuncName(ev)+"#read-only-precondition", p.Pos(ev.Pos()), "Evacuate no longer checks that the shards are read-only")
-	}
-	for _, s := range roSites {
-		var h2 *ssa.BasicBlock
-		for _, h := range ev.Blocks {
-			for _, pr := range h.Preds {
-				if h.Dominates(pr) && h.Dominates(s.Call.Block()) && reaches(s.Call.Block(), h) {
-					h2 = h
-				}
-			}
-		}
-		if h2 == nil {
-			r4.Bad(core.FuncName(ev)+"#read-only-precondition", p.InstrPos(s.Call), "the read-only check is not inside a loop over the requested shards")
-			continue
-		}
-		good := true
-		for _, pr := range h2.Preds {
-			if h2.Dominates(pr) && !gfr.Passed(gfr.OnEdge(pr, h2), 0) {
-				good = false
-			}
-		}
-		r4.Check(good, core.FuncName(ev)+"#read-only-precondition", p.InstrPos(s.Call), "the check loop advances only past read-only shards", "the precondition loop moves on past a shard that is not read-only")
 	}
 }
